@@ -49,6 +49,14 @@ def main():
         except BaseException as e:
             raised = type(e).__name__ + ': ' + str(e)[:120]
         rec['whole'] = observe(raised, ret)
+        # the same text handed to verify() explicitly, under a file name that is not one of the submission's files
+        contextualize_report('placeholder = 1\n')
+        raised, ret = None, None
+        try:
+            ret = verify(text, filename='another_file.py')
+        except BaseException as e:
+            raised = type(e).__name__ + ': ' + str(e)[:120]
+        rec['explicit'] = observe(raised, ret)
         # the same text as section 1 of a two-part file (three lines before it)
         if '##### Part' not in text:
             whole = rnd.choice(prefixes) + '##### Part 1\n' + text
